@@ -7,9 +7,11 @@ answers
     chain:<off>-<len>,…|<rkh0>,<rkh1>,<rkh2>,<rkh3>      X.509 chain + root key hash membership
     rsa:<off>-<len>:<dataEnd>                               RSA PKCS#1 v1.5/SHA-256 by that certificate over body[:dataEnd], signature body[dataEnd:]
     ecdsa:<pub>:<data>:<sig>                                ECDSA by the raw public key over data
+  romvx kind=<plain|crc|signed> rootpub=<hex> iskhash=<0|1> data=<hex>      Spec/MbiRomVx.lean (header-less mc56 / mwct images), same answers
 -/
 import Driver.Proto
 import SpsdkVerif.Spec.MbiRom
+import SpsdkVerif.Spec.MbiRomVx
 import SpsdkVerif.Crypto.Exec
 import SpsdkVerif.Spec.Rotkh
 open SpsdkVerif Driver
@@ -55,6 +57,12 @@ def step (toks : List String) : String :=
     | .ok a =>
       s!"accept strip={a.stripped} plain={match a.plain with | some p => hexOr p | none => "none"} obs="
         ++ ";".intercalate (a.obligations.map obStr)
+  | "romvx" :: rest =>
+    let kv := kvOf rest
+    let k : Spec.MbiRomVx.Kind := match kv.get? "kind" with | some "crc" => .crc | some "signed" => .signed | _ => .plain
+    match Spec.MbiRomVx.romVx execOps { rootPub := kv.hex "rootpub", iskHash := kv.nat "iskhash" == 1 } k (kv.hex "data") with
+    | .error why => "reject:" ++ why.replace " " "_"
+    | .ok a => s!"accept strip={a.stripped} plain=none obs=" ++ ";".intercalate (a.obligations.map obStr)
   | ["rotkh", t, ks] =>
     -- the documented root-of-trust hash (Spec/Rotkh.lean, C03) over raw key numbers: r:<n>:<e> or e:<bits>:<x>:<y>, comma separated
     let key (s : String) : Option Spec.Key := match s.splitOn ":" with
